@@ -10,6 +10,9 @@ SHAPE_KEYS: set[tuple[str, str]] = {
     ("C07.R3", "assert"),
     ("C09.R1", "unknown-form"),
     ("C09.R2", "base-guard-unrecognised"),
+    ("C15.R2", "operand-flow-unrecognised"),
+    ("C19.R2", "duplicate-push-unrecognised"),
+    ("C19.R2", "pop-guard-unrecognised"),
     ("C09.R2", "no-merge-result"),
     ("C09.R2", "merge-bookkeeping"),
     ("C09.R2", "unknown-result"),
